@@ -112,8 +112,9 @@ OrderOK(Ls, sort, out) ==
   LET ne == SelectSeq(Ls, LAMBDA L : Len(L) > 0)
   IN /\ NoDup(out)
      /\ sort => IsInc(out)
-     /\ (~sort /\ \A i \in 1..Len(Ls) : Len(Ls[i]) >= 2 /\ IsInc(Ls[i])) => IsInc(out)
-     /\ (~sort /\ \A i \in 1..Len(Ls) : Len(Ls[i]) >= 2 /\ IsDec(Ls[i])) => IsDec(out)
+     \* an axis of fewer than two labels is sorted in either direction: it takes the direction of the others
+     /\ (~sort /\ (\E i \in 1..Len(Ls) : Len(Ls[i]) >= 2) /\ \A i \in 1..Len(Ls) : IsInc(Ls[i])) => IsInc(out)
+     /\ (~sort /\ (\E i \in 1..Len(Ls) : Len(Ls[i]) >= 2) /\ \A i \in 1..Len(Ls) : IsDec(Ls[i])) => IsDec(out)
      /\ (Len(ne) > 0 /\ ~sort /\ \A i \in 1..Len(ne) : ne[i] = ne[1]) => out = ne[1]
 UnionOK(Ls, sort, out) == Rng(out) = UnionSet(Ls) /\ OrderOK(Ls, sort, out)
 InterOK(Ls, sort, out) == Rng(out) = InterSet(Ls) /\ NoDup(out) /\ (sort => IsInc(out))
